@@ -26,42 +26,55 @@ from .. import core, pipeline
 LEVEL = "model_checking"
 
 MC_QUICK = ["mc/MC_Pipeline_quick.cfg"]
-MC_THOROUGH = ["mc/MC_Pipeline_quick.cfg", "mc/MC_Pipeline_a.cfg", "mc/MC_Pipeline_b.cfg"]
+MC_THOROUGH = ["mc/MC_Pipeline_quick.cfg", "mc/MC_Pipeline_b.cfg", "mc/MC_Pipeline_c.cfg", "mc/MC_Pipeline_d.cfg"]
 MUTANTS_QUICK = ["table_after_filter", "no_skew_bound"]
 MUTANTS_THOROUGH = ["table_after_filter", "no_skew_bound", "no_filter", "print_first_only", "dedup_first_meta",
                     "dedup_push_always"]
-ACTIONS = ("Deliver", "Tick", "DedupArrive", "Emit", "PrintRec")
+ACTIONS = ("DeliverAny", "Tick", "DedupArrive", "Emit", "PrintRec")
 
 
 def action_coverage(out):
     """TLC -coverage: '<Action line .. of module M>: distinct:generated' per action of Next."""
     cov = {}
-    for m in re.finditer(r"<(\w+) line \d+, col \d+ to line \d+, col \d+ of module (\w+)>: (\d+):(\d+)", out):
-        name, mod, distinct, gen = m.group(1), m.group(2), int(m.group(3)), int(m.group(4))
-        if name in ACTIONS or name in ("Insert", "Pop"):
+    for m in re.finditer(r"^<(\w+) line [^>]*>: (\d+):(\d+)", out, flags=re.M):
+        name, distinct, gen = m.group(1), int(m.group(2)), int(m.group(3))
+        if name in ACTIONS:
             cov[name] = {"distinct": distinct, "generated": max(gen, cov.get(name, {}).get("generated", 0))}
     return cov
 
 
 def model_check(run, thorough):
     res = {"configs": {}, "mutants": {}}
-    workers = 4 if thorough else 3
-    for cfg in (MC_THOROUGH if thorough else MC_QUICK):
-        r = core.tlc_ok("mc/MC_Pipeline", cfg=cfg, workers=workers, xmx="3g", timeout=3000, coverage=True,
-                        workdir=run.work)
-        run.add_tlc(r)
-        cov = action_coverage(r.out)
-        missing = [a for a in ACTIONS if cov.get(a, {}).get("generated", 0) == 0]
-        if missing:
-            raise core.ToolError(f"MC_Pipeline {cfg}: actions never fired: {missing}")
-        res["configs"][os.path.basename(cfg)] = {"states": r.distinct, "transitions": r.generated, "depth": r.depth,
-                                                 "wall_s": round(r.wall, 1), "actions": cov}
-    for mut in (MUTANTS_THOROUGH if thorough else MUTANTS_QUICK):
-        r = core.tlc("mc/MC_Pipeline", cfg=f"mc/MC_Pipeline_mut_{mut}.cfg", workers=workers, xmx="3g", timeout=3000,
-                     workdir=run.work)
-        if r.ok or "Invariant AbsHolds is violated" not in r.out:
-            raise core.ToolError(f"spec mutant {mut} was not refuted by AbsHolds:\n{r.out[-1500:]}")
-        res["mutants"][mut] = {"refuted": True, "wall_s": round(r.wall, 1), "states": r.distinct}
+    workers = 3
+
+    def configs():
+        for cfg in (MC_THOROUGH if thorough else MC_QUICK):
+            r = core.tlc_ok("mc/MC_Pipeline", cfg=cfg, workers=workers, xmx="3g", timeout=3000, coverage=True,
+                            workdir=run.work)
+            run.add_tlc(r)
+            cov = action_coverage(r.out)
+            missing = [a for a in ACTIONS if cov.get(a, {}).get("generated", 0) == 0]
+            if missing:
+                raise core.ToolError(f"MC_Pipeline {cfg}: actions never fired: {missing}")
+            res["configs"][os.path.basename(cfg)] = {"states": r.distinct, "transitions": r.generated,
+                                                     "depth": r.depth, "wall_s": round(r.wall, 1), "actions": cov}
+
+    def mutants():
+        for mut in (MUTANTS_THOROUGH if thorough else MUTANTS_QUICK):
+            r = core.tlc("mc/MC_Pipeline", cfg=f"mc/MC_Pipeline_mut_{mut}.cfg", workers=workers, xmx="3g",
+                         timeout=3000, workdir=run.work)
+            if r.ok or "Invariant AbsChecked is violated" not in r.out:
+                raise core.ToolError(f"spec mutant {mut} was not refuted by AbsChecked:\n{r.out[-1500:]}")
+            res["mutants"][mut] = {"refuted": True, "wall_s": round(r.wall, 1), "states": r.distinct}
+
+    if thorough:                       # two lanes of TLC (3 workers each)
+        with cf.ThreadPoolExecutor(max_workers=2) as ex:
+            fs = [ex.submit(configs), ex.submit(mutants)]
+            for f in fs:
+                f.result()
+    else:
+        configs()
+        mutants()
     return res
 
 
@@ -111,20 +124,67 @@ def corruptions(events):
         if sc[0]["w"] >= 100:
             c = copy.deepcopy(sc); c[i0]["seen"] = 0
             add("b_early", c)
-        if len(recs) >= 3:
-            c = copy.deepcopy(sc); del c[i0]
-            add("bd_lost", c)
+        # a record whose absence is certain: one of its receptions is followed, on its receiver, by two
+        # observed ones more than W + Skew apart (this only selects the case; the trace spec decides)
+        pos = {(e["rx"], tuple(e["fr"][2:8])): e["pos"] for e in sc if e["e"] == "sent"}
+        seen_at = {}
+        for i in recs:
+            for mm in sc[i]["m"]:
+                seen_at.setdefault(mm["rx"], []).append((pos.get((mm["rx"], tuple(mm["id"])), 0), mm["t"]))
+        for i in recs:
+            sure = False
+            for mm in sc[i]["m"]:
+                p0 = pos.get((mm["rx"], tuple(mm["id"])), 0)
+                later = sorted(x for x in seen_at[mm["rx"]] if x[0] > p0)
+                if later and any(t >= later[0][1] + pipeline.SKEW_MS + sc[0]["w"] for _, t in later):
+                    sure = True
+            if sure:
+                c = copy.deepcopy(sc); del c[i]
+                add("bd_lost", c)
+                break
         c = copy.deepcopy(sc); c[0]["ac_present"] = True; c[0]["ac_list"] = [0x00400B]
         add("d_filter", c)
         two = [i for i in recs if len(sc[i]["m"]) >= 2]
-        if two and sc[0]["w"] >= 100:
-            i = two[0]
+        tight = [i for i in two if sc[i]["m"][1]["t"] + pipeline.SKEW_MS < sc[i]["t"] + sc[0]["w"]]
+        if tight:
+            i = tight[0]
             c = copy.deepcopy(sc)
             second = copy.deepcopy(c[i])
             second["m"] = second["m"][1:]; second["t"] = second["m"][0]["t"]
             c[i]["m"] = c[i]["m"][:1]
             c.insert(i + 1, second)
             add("b_split", c)
+        c = copy.deepcopy(sc); c[0]["serials"] = [1, 1]
+        add("a_serial", c)
+        c = copy.deepcopy(sc); c[0]["junk"] = 1
+        add("c_junk", c)
+        skew = pipeline.SKEW_MS
+        w = sc[0]["w"]
+        for x in range(len(recs)):
+            for y in range(x + 1, len(recs)):
+                if sc[recs[x]]["m"][0]["rx"] == sc[recs[y]]["m"][0]["rx"]:
+                    c = copy.deepcopy(sc)
+                    c[recs[y]]["t"] = c[recs[y]]["m"][0]["t"] = c[recs[x]]["m"][0]["t"] - 1
+                    add("a_order", c)
+        if len(recs) >= 2:
+            c = copy.deepcopy(sc)
+            c[recs[1]]["t"] = c[recs[1]]["m"][0]["t"] = c[recs[0]]["t"] - skew - 5
+            add("b_order", c)
+        three = [i for i in recs if len(sc[i]["m"]) >= 3]
+        if three:
+            c = copy.deepcopy(sc); c[three[0]]["m"][1]["t"] = c[three[0]]["t"] + w + 1
+            add("b_window", c)
+        if two and w >= 100:
+            g = two[0]
+            others = [i for i in recs if i != g and sc[i]["frame"] != sc[g]["frame"]]
+            if others:
+                c = copy.deepcopy(sc)
+                ty = c[g]["t"] + w + skew + 10
+                c[others[0]]["t"] = ty
+                for mm in c[others[0]]["m"]:
+                    mm["t"] = ty
+                c[g]["m"][-1]["t"] = ty + skew + 10
+                add("b_between", c)
         if sc[tab]["stable"] and sc[tab]["tab"]:
             c = copy.deepcopy(sc); c[tab]["tab"][0]["count"] += 1
             if nofilter:
